@@ -182,14 +182,88 @@ func checkC13(c *Ctx) {
 	c4LocksCombined(c, "R13.6")
 
 	// R13.4 ---------------------------------------------------------------
-	for _, m := range []string{"Write", "Sync"} {
-		fn := c.Method(CorePath, "lockedWriteSyncer", m)
-		if !c.Anchor("R13.4", "zapcore.lockedWriteSyncer."+m, fn != nil) {
+	lockedSyncerMethods(c, "R13.4")
+}
+
+// lockedSyncerMethods: EVERY method of lockedWriteSyncer that calls into the wrapped syncer - through the field's own
+// interface or through any other interface it is asserted to (io.StringWriter, io.ReaderFrom, …) - does so with the
+// mutex write-held, and releases it before returning.
+func lockedSyncerMethods(c *Ctx, rule string) {
+	lws := c.Named(CorePath, "lockedWriteSyncer")
+	if !c.Anchor(rule, "zapcore.lockedWriteSyncer", lws != nil) {
+		return
+	}
+	// the wrapped syncer: the field of interface type
+	wsField := ""
+	if st, ok := lws.Underlying().(*types.Struct); ok {
+		for i := 0; i < st.NumFields(); i++ {
+			if _, isI := types.Unalias(st.Field(i).Type()).Underlying().(*types.Interface); isI {
+				wsField = st.Field(i).Name()
+			}
+		}
+	}
+	if !c.Anchor(rule, "the wrapped syncer field of zapcore.lockedWriteSyncer", wsField != "") {
+		return
+	}
+	fromWrapped := func(v ssa.Value) bool {
+		for k := 0; k < 8; k++ {
+			switch x := v.(type) {
+			case *ssa.TypeAssert:
+				v = x.X
+				continue
+			case *ssa.Extract:
+				if ta, ok := x.Tuple.(*ssa.TypeAssert); ok {
+					v = ta.X
+					continue
+				}
+			case *ssa.ChangeInterface:
+				v = x.X
+				continue
+			case *ssa.UnOp:
+				if fa, ok := x.X.(*ssa.FieldAddr); ok && x.Op == token.MUL {
+					n, _ := types.Unalias(deref(fa.X.Type())).(*types.Named)
+					return n != nil && n.Obj() == lws.Obj() && fieldName(fa.X.Type(), fa.Field) == wsField
+				}
+			}
+			break
+		}
+		return false
+	}
+	sel := func(cl ssa.CallInstruction) bool {
+		cm := cl.Common()
+		return cm.IsInvoke() && fromWrapped(cm.Value)
+	}
+	ms := c.SSA.MethodSets.MethodSet(types.NewPointer(lws))
+	n := 0
+	for i := 0; i < ms.Len(); i++ {
+		fn := c.SSA.MethodValue(ms.At(i))
+		if fn == nil || len(fn.Blocks) == 0 || fn.Synthetic != "" {
 			continue
 		}
-		LockedAcross(c, "R13.4", fn, func(cl ssa.CallInstruction) bool {
-			return IsCallTo(cl, "(io.Writer).Write", "(go.uber.org/zap/zapcore.WriteSyncer).Sync", "(go.uber.org/zap/zapcore.WriteSyncer).Write")
-		}, "Mutex")
+		if rn := RecvNamed(fn); rn == nil || rn.Obj() != lws.Obj() {
+			continue
+		}
+		touches := false
+		for _, cl := range CallsDeep(fn) {
+			if sel(cl) {
+				touches = true
+			}
+		}
+		for _, g := range WithClosures(fn) {
+			for _, cl := range Calls(g) {
+				if sel(cl) {
+					touches = true
+				}
+			}
+		}
+		if !touches {
+			continue
+		}
+		n++
+		LockedAcross(c, rule, fn, sel, "Mutex")
+	}
+	if n < 2 {
+		c.Bad(rule, "zapcore.lockedWriteSyncer", "methods", token.NoPos, "expected at least Write and Sync to call into the wrapped syncer, found %d such methods", n)
 	}
 }
 
